@@ -28,6 +28,7 @@ func runC12(c *Ctx) {
 	c.rule("T2", "in a runner's select the timeout/cancel case triggers the action's stop signal before waiting for the action and yields the timeout kind; the completion case yields the action's own result", 4)
 	c.rule("T3", "every cancel function from context.With* is called on every exit or registered in a CancelFunctionStore; every store created in a function is cancelled on every exit", 5)
 	c.rule("T4", "CancelFunctionStore.cancelFunctions is appended under mu.Lock and read under at least mu.RLock; Cancel's loop has no early exit", 4)
+	c.rule("T6", "Parallelise: the value handed to reflect.Append is not the bare reflect.ValueOf of a result that may be nil: its validity is tested (nil results are results too)", 1)
 	c.rule("T5", "Parallelise: one goroutine per index < length, each calls the action exactly once before its single send; the result loop is bounded by the same length", 3)
 
 	for _, f := range c.srcFuncs(parPkg) {
@@ -40,6 +41,7 @@ func runC12(c *Ctx) {
 	}
 	c.c12Store()
 	c.c12Parallelise()
+	c.c12NilResults()
 }
 
 // chanOrigin follows a channel value to its MakeChan (through closure
@@ -767,4 +769,57 @@ func anchorInOuterOf(in ssa.Instruction, top *ssa.Function) ssa.Instruction {
 		in = site
 	}
 	return in
+}
+
+// c12NilResults (T6): "returns all results (as a multiset) or an error that some invocation returned". reflect.ValueOf(nil)
+// is the zero Value, and reflect.Append panics on it: an action that returns (nil, nil) must not take the collection of
+// the results down. Decided: the element handed to reflect.Append is merged with a reflect.Zero/New value on the side
+// where IsValid() answered false (or is never the bare ValueOf of the item).
+func (c *Ctx) c12NilResults() {
+	f := c.fn("parallelisation", "Parallelise")
+	if f == nil {
+		return
+	}
+	key := fname(f) + "/nil-results"
+	n := 0
+	allInstrs(f, func(in ssa.Instruction) {
+		cl, ok := in.(*ssa.Call)
+		if !ok || calleeFull(&cl.Call) != "reflect.Append" {
+			return
+		}
+		n++
+		good := true
+		for _, e := range variadicElems(cl.Call.Args[1]) {
+			v := resolveValue(e)
+			switch x := v.(type) {
+			case *ssa.Call:
+				if calleeFull(&x.Call) == "reflect.ValueOf" {
+					good = false // bare
+				}
+			case *ssa.Phi:
+				hasFallback := false
+				for _, ed := range x.Edges {
+					if ec, isCall := resolveValue(ed).(*ssa.Call); isCall {
+						switch calleeFull(&ec.Call) {
+						case "reflect.Zero", "reflect.New":
+							hasFallback = true
+						}
+					}
+				}
+				// the fallback edge is taken where IsValid() answered false
+				tested := false
+				allInstrs(f, func(j ssa.Instruction) {
+					if jc, isCall := j.(*ssa.Call); isCall && calleeFull(&jc.Call) == "(reflect.Value).IsValid" {
+						tested = true
+					}
+				})
+				good = hasFallback && tested
+			}
+		}
+		c.check(good, "T6", key, c.ipos(cl), "a result that is nil is appended as the zero value of the element type",
+			"the result of the action goes to reflect.Append as the bare reflect.ValueOf(item): for an action that returns (nil, nil) that is the zero Value and the collection of the results panics instead of returning them all")
+	})
+	if n == 0 {
+		c.ok("T6", key, c.pos(f.Pos()), "results are not collected through reflect.Append")
+	}
 }
